@@ -6,6 +6,7 @@ from .. import fs as FS
 META = {
     "technique": "must-pass-through on a configuration-specialised MIR CFG + dominance chains + who-may-call table",
     "explanation": (
+        "R-C02.9: the default durability — every construction of a WriteBatch/BaseTransaction installs Some(..) under automatic journal persist (the assumption the pruned CFG of R-C02.1 rests on), through crate-private constructors and their callers. R-C02.10: a crash during the very first open leaves a directory that can be opened (repeatable create-new steps, complete-before-visible version marker; two known findings). "
         "Decides the structural write-ahead and recovery-order conditions: (1) in every write entry point, on the CFG "
         "specialised to the default persist configuration, the journal append dominates every memtable apply, every path "
         "append->apply passes Writer::persist, and every non-error path from the append to a return passes the apply and "
